@@ -80,7 +80,13 @@ class Preempter:
             return
         ctl["count"] += 1
         if ctl["k"] == 0:
-            self.trace.append((code.co_filename.rsplit("/", 1)[-1], code.co_name, line))
+            # a location is a source line IN ITS CALLING CONTEXT (the same helper line is another location under another
+            # caller): frame 0 is this method, 1 the registered lambda, 2 the monitored code, 3 its caller
+            try:
+                caller = sys._getframe(3).f_code.co_name
+            except Exception:
+                caller = ""
+            self.trace.append((code.co_filename.rsplit("/", 1)[-1], code.co_name, line, caller))
         if ctl["count"] == ctl["k"]:
             ctl["inside"] = True
             t = threading.Thread(target=self._run_b)
